@@ -7,6 +7,7 @@ use serde_json::{json, Value};
 pub struct Api {
     pub write: fn(usize, &Value, &mut UperWriter) -> Option<Result<(), asn1rs::protocol::per::Error>>,
     pub read: fn(usize, &mut UperReader<Bits<'_>>) -> Result<Value, asn1rs::protocol::per::Error>,
+    pub twrite: fn(usize, &Value, &mut crate::uptrace::Tw) -> Option<Result<(), asn1rs::protocol::per::Error>>,
     pub pwrite: fn(usize, &Value, &mut ProtobufWriter<'_>) -> Option<Result<(), asn1rs::protocol::protobuf::Error>>,
     pub pread: fn(usize, &mut ProtobufReader<'_>) -> Result<Value, asn1rs::protocol::protobuf::Error>,
     pub types: &'static [usize],
@@ -26,6 +27,7 @@ pub fn main(api: Api) {
             uper(&api, &args[2], &mut out);
             stream(&api, &args[2], &mut out);
         }
+        "uptrace" => uptrace(&api, &args[2], &mut out, &kv),
         "versions" => versions(&api, &args[2], &mut out),
         "decode" => decode(&api, &args[2], &mut out, &kv),
         "proto" => proto(&api, &args[2], &mut out, &kv),
@@ -535,4 +537,44 @@ fn proto(api: &Api, input: &str, out: &mut Out, kv: &Kv) {
         let _ = e.flush();
     }
     out.line(&json!({"summary": true, "cases": n, "stats": stats}));
+}
+
+/// T direction for the writer machine: every vector is written through the tracing wrapper; the events (one reset event per
+/// vector, then the per-call events with buffer snapshots) are the trace Trace_Uper.tla validates.
+fn uptrace(api: &Api, input: &str, out: &mut Out, kv: &Kv) {
+    let max_bits = kv_u64(kv, "maxbits", 400) as usize;
+    let stride = kv_u64(kv, "stride", 1);
+    let (mut n, mut traced, mut events) = (0u64, 0u64, 0u64);
+    for (i, c) in read_lines(input) {
+        n += 1;
+        if (i as u64) % stride != 0 || c["dev"].as_str().unwrap_or("") != "" || c["bits"].as_array().map(|b| b.len()).unwrap_or(0) > max_bits {
+            continue;
+        }
+        let ti = usize_of(&c["ti"]);
+        let mut w = crate::uptrace::Tw::default();
+        let _ = crate::uptrace::take_events();
+        let r = guarded(|| (api.twrite)(ti, &c["v"], &mut w));
+        let evs = crate::uptrace::take_events();
+        let (ok, plain) = match r {
+            Err(p) => {
+                out.line(&json!({"ev": "panic", "line": i, "ti": ti, "why": p}));
+                continue;
+            }
+            Ok(None) => continue, // value not representable in the generated Rust type
+            Ok(Some(r)) => {
+                // the wrapper must be transparent: same bytes as the plain writer
+                let mut p = UperWriter::default();
+                let pr = (api.write)(ti, &c["v"], &mut p);
+                let same = pr.map(|x| x.is_ok()) == Some(r.is_ok()) && (r.is_err() || (p.bit_len() == w.0.bit_len() && p.byte_content() == w.0.byte_content()));
+                (r.is_ok(), same)
+            }
+        };
+        traced += 1;
+        events += evs.len() as u64 + 1;
+        out.line(&json!({"ev": "reset", "ph": "call", "line": i, "ti": ti, "ok": ok, "transparent": plain}));
+        for e in evs {
+            out.line(&e);
+        }
+    }
+    out.line(&json!({"ev": "summary", "ph": "call", "cases": n, "traced": traced, "events": events}));
 }
